@@ -209,3 +209,13 @@ def all_subset_syntenies(leaves, fams, ordered_variants=False):
                 options.append(list(comb))
     for choice in itertools.product(options, repeat=len(leaves)):
         yield dict(zip(leaves, choice))
+
+
+def noncoherent_cost(rng, plain=False):
+    """Cost vectors outside the coherent region (validity-only properties)."""
+    for _ in range(1000):
+        c = {"spe": rng.randint(1, 6), "dup": rng.randint(0, 2), "hgt": rng.choice([0, 1, 2, 3, "inf"]), "floss": rng.choice([0, 0, 1]),
+             "sloss": rng.randint(0, 4)}
+        if not coherent(_num(c), plain):
+            return c
+    return {"spe": 5, "dup": 0, "hgt": 1, "floss": 0, "sloss": 3}
